@@ -672,6 +672,8 @@ func runSite(mode string) sim.RigFunc {
 			}
 			if mode == "C19" && r.hasMatchers {
 				// directives whose matchers and targets are evaluated on request text
+				// (a base path whose upper-case form is shorter: paths match without regard to case)
+				b.WriteString("\trewrite /p/\u2c65\u2c65 {\n\t\tregexp .*\n\t\tto /p/x\n\t}\n")
 				b.WriteString("\trewrite /p/rw {\n\t\tregexp ^/p/rw/(.*?)(/.*)?$\n\t\tto /p/x?from={1}&rest={2}&q={query}&e={>X-Evil}&c={~ck}\n\t}\n")
 				b.WriteString("\trewrite {\n\t\tif {>X-Evil} has x\n\t\tif {~ck} not_match ^v1$\n\t\tif {path} starts_with /p/cond\n\t\tif {?q} not_ends_with zz\n\t\tif {>Referer} not_has nothing\n\t\tif_op and\n\t\tto /p/y.html /p/{>X-Evil} /p/x\n\t}\n")
 				b.WriteString("\tredir 302 {\n\t\tif {path} is /p/rd\n\t\t/ /p/x?e={>X-Evil}&u={uri}&h={host}\n\t}\n")
@@ -1041,7 +1043,7 @@ func (r *siteRig) hostileRequest(q *sreq) {
 		q.path = []string{"/p/%2e%2e/x", "/p//./../p/x", "/p/%00", "/P/X", "/p/" + strings.Repeat("a/", 200), "/p/x%", "/p/{host}", "/p/%7Bhost%7D", "/secret%2Fx", "/p/auth%2fx"}[st.Draw(10)]
 	}
 	if r.hasMatchers && st.Draw(2) == 0 {
-		q.path = []string{"/p/rw/", "/p/rw/a/b", "/p/rw/%7B1%7D/{2}", "/p/rw/" + strings.Repeat("x/", 100), "/p/cond/x", "/p/cond", "/p/rd", "/static/", "/static/", "/static"}[st.Draw(10)]
+		q.path = []string{"/p/%C8%BA%C8%BA", "/p/rw/", "/p/rw/a/b", "/p/rw/%7B1%7D/{2}", "/p/rw/" + strings.Repeat("x/", 100), "/p/cond/x", "/p/cond", "/p/rd", "/static/", "/static/", "/static"}[st.Draw(11)]
 		if strings.HasPrefix(q.path, "/static") {
 			q.query = []string{"sort=name&order=desc", "sort=size&limit=-1", "limit=abc&offset=-5", "limit=99999999999999999999", "sort={host}&order=%00", "offset=3&limit=0"}[st.Draw(6)]
 			if st.Draw(2) == 0 {
